@@ -140,7 +140,10 @@ reg("C19", "proof", ["contracts.purity:Purity", "contracts.density:DensityFromOr
          "induction on the length of the sequence (each call starts from an unchanged state and depends only on its arguments)",
     extra_assumptions=["history quantifier discharged by the composition lemma over per-call frames, not by exploring sequences"])
 
-reg("C13", "proof", ["contracts.contraction_algebra:ContractionAlgebra", "contracts.overlap:AssignNormCont", "contracts.overlap:Cleanup"],
+reg("C13", "proof", ["contracts.contraction_algebra:ContractionAlgebra", "contracts.overlap:AssignNormCont", "contracts.overlap:Cleanup",
+    # routines above the block level that count or index contracted functions themselves (a generalized shell must be
+    # accepted and answered exactly like its columns written as separate shells)
+    "contracts.esp:ESP", "contracts.esp:ESPInline"],
     ["construct_array_contraction of Overlap, KineticEnergyIntegral, MomentumIntegral, AngularMomentumIntegral, Moment, PointChargeIntegral, "
      "ElectronRepulsionIntegral, EvalDeriv (kernels inlined)", "gbasis.contractions.GeneralizedContractionShell.assign_norm_cont"],
     extra_assumptions=["a shell's contraction is not the zero function (its self-overlap, the radicand of norm_cont, is positive)",
@@ -148,6 +151,7 @@ reg("C13", "proof", ["contracts.contraction_algebra:ContractionAlgebra", "contra
 
 reg("C11", "proof", ["contracts.symmetry:AssemblyPermutation", "contracts.symmetry:BlockOrientation", "contracts.coulomb:ERISymmetry",
     "contracts.coulomb:PointChargeInline", "contracts.assembly:TwoSymm@quick", "contracts.assembly:TwoSymmHerm", "contracts.assembly:FourSymm@quick",
+    "contracts.dispatch:Dispatch",  # the public wrappers route by the coordinate types of the shells, whatever their order
     "contracts.numeric:ERIIllConditioned"],
     ["Base{One,TwoIndexSymmetric,FourIndexSymmetric}.construct_array_* on permuted shell lists",
      "construct_array_contraction of every two-index class in both orientations", "ElectronRepulsionIntegral.construct_array_contraction in eight orientations"],
